@@ -106,9 +106,31 @@ let decide ~(oc : bool) ~(contract : bool) ~(spec : tuple list) ~(option_result 
     end
   end
 
+(* Cross-check of extraction: with ORACLE_DUMP=<file> the sizes and checksums of the three model
+   results (documented meaning, memory model, sql model) and the trigger / contract flags the
+   EXTRACTED model computed for every case are appended to that file, before any comparison with
+   the implementation; bin/coqreplay_c13.py recomputes the same numbers inside Coq (vm_compute). *)
+let dump_chan = match Sys.getenv_opt "ORACLE_DUMP" with
+  | Some p when p <> "" -> Some (open_out_gen [Open_append; Open_creat] 0o644 p)
+  | _ -> None
+let hb (b : bytes) : int = List.fold_left (fun acc x -> (acc * 31 + int_of_n x + 1) mod 1000003) 7 b
+let ht (t : tuple) : int =
+  List.fold_left (fun acc x -> (acc * 131 + x) mod 1000000007) 0
+    [hb t.t_otype; hb t.t_oid; hb t.t_rel; hb t.t_user.u_type; hb t.t_user.u_id; hb t.t_user.u_rel;
+     hb t.t_cond; int_of_n t.t_ctx]
+let hl (l : tuple list) : int = List.fold_left (fun acc t -> (acc * 131 + ht t + 1) mod 1000000007) 0 l
+let b2i b = if b then 1 else 0
+let dump id op (s : store) spec mm sm f1 f2 =
+  match dump_chan with
+  | Some ch ->
+    Printf.fprintf ch "%s %d %d %d %d %d %d %d %d %d %d\n" id op
+      (List.length spec) (hl spec) (List.length mm) (hl mm) (List.length sm) (hl sm)
+      (b2i f1) (b2i f2) (b2i (wf_store s) + 2 * b2i (keys_unique s))
+  | None -> ()
+
 let flag b name = if b then [name] else []
 
-let f _id vs =
+let f id vs =
   match vs with
   | [op; oc; st; flt; rm; rs] ->
     let op = as_int op and oc = as_bool oc in
@@ -119,23 +141,31 @@ let f _id vs =
       match op, as_list flt with
       | (1 | 2), (o :: r :: u :: c :: _) ->
         let fl = { rf_obj = parse_ofilter o; rf_rel = as_cbytes r; rf_usr = parse_ufilter u; rf_conds = parse_conds c } in
-        decide ~oc ~contract:(wf_read_filter fl) ~spec:(read_spec s fl) ~option_result:false
-          { name = "memory"; impl = rm; model = memory_read s fl;
-            flags = flag (flag_read_all_ignores_conditions s fl) "read_all_ignores_conditions_memory" }
-          { name = "sqlite"; impl = rs; model = sql_read s fl; flags = [] }
+        let spec = read_spec s fl and mm = memory_read s fl and sm = sql_read s fl in
+        let f1 = flag_read_all_ignores_conditions s fl and wf = wf_read_filter fl in
+        dump id op s spec mm sm f1 wf;
+        decide ~oc ~contract:wf ~spec ~option_result:false
+          { name = "memory"; impl = rm; model = mm; flags = flag f1 "read_all_ignores_conditions_memory" }
+          { name = "sqlite"; impl = rs; model = sm; flags = [] }
       | 3, [ot; oid; r; ut; uid; ur; c] ->
         let k = { k_otype = as_cbytes ot; k_oid = as_cbytes oid; k_rel = as_cbytes r; k_user = parse_user ut uid ur } in
         let cs = parse_conds c in
         let ol = function Some x -> [x] | None -> [] in
-        decide ~oc ~contract:(key_full k) ~spec:(read_user_tuple_spec s k cs) ~option_result:true
-          { name = "memory"; impl = rm; model = ol (memory_read_user_tuple s k cs); flags = [] }
-          { name = "sqlite"; impl = rs; model = ol (sql_read_user_tuple s k cs); flags = [] }
+        let spec = read_user_tuple_spec s k cs and mm = ol (memory_read_user_tuple s k cs)
+        and sm = ol (sql_read_user_tuple s k cs) and kf = key_full k in
+        dump id op s spec mm sm kf false;
+        decide ~oc ~contract:kf ~spec ~option_result:true
+          { name = "memory"; impl = rm; model = mm; flags = [] }
+          { name = "sqlite"; impl = rs; model = sm; flags = [] }
       | 4, [o; r; rl; c] ->
         let restr = match as_list rl with [_; l] -> List.map parse_restr (as_list l) | _ -> failwith "restrictions" in
         let fl = { uf_obj = parse_ofilter o; uf_rel = as_cbytes r; uf_restr = restr; uf_conds = parse_conds c } in
-        decide ~oc ~contract:(wf_usersets_filter fl) ~spec:(read_userset_tuples_spec s fl) ~option_result:false
-          { name = "memory"; impl = rm; model = memory_read_userset_tuples s fl; flags = [] }
-          { name = "sqlite"; impl = rs; model = sql_read_userset_tuples s fl; flags = [] }
+        let spec = read_userset_tuples_spec s fl and mm = memory_read_userset_tuples s fl
+        and sm = sql_read_userset_tuples s fl and wf = wf_usersets_filter fl in
+        dump id op s spec mm sm wf false;
+        decide ~oc ~contract:wf ~spec ~option_result:false
+          { name = "memory"; impl = rm; model = mm; flags = [] }
+          { name = "sqlite"; impl = rs; model = sm; flags = [] }
       | 5, [ot; r; us; oids; c] ->
         let users = List.map (fun u -> match as_list u with [a; b; c] -> parse_user a b c | _ -> failwith "user") (as_list us) in
         let oids = match as_list oids with
@@ -143,11 +173,12 @@ let f _id vs =
           | [I "1"; l] -> Some (List.map as_cbytes (as_list l))
           | _ -> failwith "oids" in
         let fl = { sf_otype = as_cbytes ot; sf_rel = as_cbytes r; sf_users = users; sf_oids = oids; sf_conds = parse_conds c } in
-        decide ~oc ~contract:true ~spec:(rswu_spec s fl) ~option_result:false
-          { name = "memory"; impl = rm; model = memory_rswu s fl;
-            flags = flag (flag_rswu_duplicate_user_filter fl) "rswu_duplicate_user_filter_memory" }
-          { name = "sqlite"; impl = rs; model = sql_rswu s fl;
-            flags = flag (flag_rswu_empty_object_ids fl) "rswu_empty_object_ids_sqlite" }
+        let spec = rswu_spec s fl and mm = memory_rswu s fl and sm = sql_rswu s fl in
+        let fd = flag_rswu_duplicate_user_filter fl and fe = flag_rswu_empty_object_ids fl in
+        dump id op s spec mm sm fd fe;
+        decide ~oc ~contract:true ~spec ~option_result:false
+          { name = "memory"; impl = rm; model = mm; flags = flag fd "rswu_duplicate_user_filter_memory" }
+          { name = "sqlite"; impl = rs; model = sm; flags = flag fe "rswu_empty_object_ids_sqlite" }
       | _ -> "DIFF malformed-record"
     end
   | _ -> "DIFF malformed-record"
